@@ -146,6 +146,7 @@ def query : Handler := fun j => do
       | "rdeps" => pure (rdepsCmd r.g qsel r.h (← getBool q "t") (← getNat q "v"))
       | "list" => pure (listCmd r.g r.s r.h)
       | "owners" => pure (ownersCmd r.g inputs (← getBytesList q "files"))
+      | "changes" => pure (changesCmd r.g qsel r.h inputs (← getBytesList q "files") (← getBool q "t"))
       | _ => throw "bad query kind")
     pure (Json.mkObj [("ok", Json.bool true), ("out", Json.arr (outs.map jBytesList).toArray)])
 
